@@ -16,6 +16,7 @@ package load
 import (
 	_ "embed"
 	"fmt"
+	"go/token"
 	"reflect"
 	"strings"
 	"unsafe"
@@ -431,6 +432,15 @@ func (p *Prog) InlineNewFunctions(all map[*ssa.Function]bool) []Inlined {
 					case *ssa.MakeClosure:
 						h, _ = v.Fn.(*ssa.Function)
 						free = v.Bindings
+					case *ssa.UnOp:
+						// a local closure that other closures capture lives in a variable cell: `write := func…` called as
+						// (*cell)(…) — directly, or from a closure that was itself expanded here
+						if v.Op == token.MUL {
+							if mc := singleClosureCell(v.X); mc != nil {
+								h, _ = mc.Fn.(*ssa.Function)
+								free = mc.Bindings
+							}
+						}
 					}
 					if h == nil || h == fn || p.inTestFile(h) || !inlinable(h, baseline) || callsItself(h) || len(call.Call.Args) != len(h.Params) {
 						continue
@@ -459,6 +469,9 @@ func (p *Prog) InlineNewFunctions(all map[*ssa.Function]bool) []Inlined {
 	for fn := range all {
 		if touched[FuncName(fn)] {
 			mergeLinearBlocks(fn)
+			for threadPhiOnlyBlocks(fn) {
+				mergeLinearBlocks(fn)
+			}
 		}
 	}
 	return done
@@ -523,4 +536,192 @@ func mergeLinearBlocks(fn *ssa.Function) {
 			break
 		}
 	}
+}
+
+// singleClosureCell: addr is a local variable cell that is assigned exactly once, a closure literal, and is otherwise
+// only read (directly or through closures that capture it without assigning to it). Returns that closure.
+func singleClosureCell(addr ssa.Value) *ssa.MakeClosure {
+	al, ok := addr.(*ssa.Alloc)
+	if !ok || al.Referrers() == nil {
+		return nil
+	}
+	var mc *ssa.MakeClosure
+	for _, ref := range *al.Referrers() {
+		switch r := ref.(type) {
+		case *ssa.Store:
+			if r.Addr != ssa.Value(al) {
+				return nil // the cell's address is stored somewhere
+			}
+			m, isMC := r.Val.(*ssa.MakeClosure)
+			if !isMC || mc != nil {
+				return nil
+			}
+			mc = m
+		case *ssa.UnOp, *ssa.DebugRef:
+		case *ssa.MakeClosure:
+			// captured: the capturing closure must only read it
+			cf, _ := r.Fn.(*ssa.Function)
+			if cf == nil {
+				return nil
+			}
+			for i, b := range r.Bindings {
+				if b != ssa.Value(al) || i >= len(cf.FreeVars) {
+					continue
+				}
+				fv := cf.FreeVars[i]
+				if fv.Referrers() == nil {
+					continue
+				}
+				for _, fr := range *fv.Referrers() {
+					switch fr.(type) {
+					case *ssa.UnOp, *ssa.DebugRef:
+					default:
+						return nil
+					}
+				}
+			}
+		default:
+			return nil
+		}
+	}
+	return mc
+}
+
+// threadPhiOnlyBlocks: a block P that holds nothing but phis and a jump to K, whose phis are used only by K's phis,
+// is a pure merge point in front of another merge (the `return err` of an expanded helper whose err variable was
+// assigned on several paths, followed by the caller's `if err != nil`). Its predecessors are connected to K directly
+// and K's phis take the values P's phis would have passed on — the block structure the code has when written in line,
+// and the form in which the per-predecessor reasoning about merged error values applies. Returns true if it changed fn.
+func threadPhiOnlyBlocks(fn *ssa.Function) bool {
+	for _, P := range fn.Blocks {
+		if P == fn.Blocks[0] || P == fn.Recover || len(P.Succs) != 1 || len(P.Instrs) < 2 || len(P.Preds) < 2 {
+			continue
+		}
+		if _, isJump := P.Instrs[len(P.Instrs)-1].(*ssa.Jump); !isJump {
+			continue
+		}
+		K := P.Succs[0]
+		if K == P || K == fn.Blocks[0] || K == fn.Recover {
+			continue
+		}
+		ok := true
+		pphis := map[ssa.Value]*ssa.Phi{}
+		for _, in := range P.Instrs[:len(P.Instrs)-1] {
+			phi, isPhi := in.(*ssa.Phi)
+			if !isPhi || len(phi.Edges) != len(P.Preds) {
+				ok = false
+				break
+			}
+			pphis[phi] = phi
+			if phi.Referrers() != nil {
+				for _, ref := range *phi.Referrers() {
+					kphi, isK := ref.(*ssa.Phi)
+					if !isK || kphi.Block() != K {
+						ok = false
+					}
+				}
+			}
+		}
+		if !ok || len(pphis) == 0 {
+			continue
+		}
+		idx, n := -1, 0
+		for i, q := range K.Preds {
+			if q == P {
+				idx = i
+				n++
+			}
+		}
+		if n != 1 {
+			continue
+		}
+		dup := false
+		for _, q := range P.Preds {
+			for _, kq := range K.Preds {
+				if kq == q {
+					dup = true
+				}
+			}
+			cnt := 0
+			for _, sq := range q.Succs {
+				if sq == P {
+					cnt++
+				}
+			}
+			if cnt != 1 {
+				dup = true
+			}
+		}
+		if dup {
+			continue
+		}
+		// K's phis
+		for _, in := range K.Instrs {
+			kphi, isPhi := in.(*ssa.Phi)
+			if !isPhi {
+				continue
+			}
+			if len(kphi.Edges) != len(K.Preds) {
+				ok = false
+			}
+		}
+		if !ok {
+			continue
+		}
+		for _, in := range K.Instrs {
+			kphi, isPhi := in.(*ssa.Phi)
+			if !isPhi {
+				continue
+			}
+			vP := kphi.Edges[idx]
+			var edges []ssa.Value
+			for i, e := range kphi.Edges {
+				if i != idx {
+					edges = append(edges, e)
+				}
+			}
+			dropReferrer(vP, kphi)
+			for j := range P.Preds {
+				nv := vP
+				if pp, isP := pphis[vP]; isP {
+					nv = pp.Edges[j]
+				}
+				edges = append(edges, nv)
+				addReferrer(nv, kphi)
+			}
+			kphi.Edges = edges
+		}
+		var preds []*ssa.BasicBlock
+		for i, q := range K.Preds {
+			if i != idx {
+				preds = append(preds, q)
+			}
+		}
+		preds = append(preds, P.Preds...)
+		K.Preds = preds
+		for _, q := range P.Preds {
+			for i, sq := range q.Succs {
+				if sq == P {
+					q.Succs[i] = K
+				}
+			}
+		}
+		for _, pp := range pphis {
+			for _, e := range pp.Edges {
+				dropReferrer(e, pp)
+			}
+		}
+		var nb []*ssa.BasicBlock
+		for _, x := range fn.Blocks {
+			if x != P {
+				nb = append(nb, x)
+			}
+		}
+		fn.Blocks = nb
+		for i, x := range fn.Blocks {
+			x.Index = i
+		}
+		return true
+	}
+	return false
 }
